@@ -143,6 +143,7 @@ class AffineEvaluator:
             "has_perturbations": context.perturbations is not None,
             "active_objectives": None if context.active_objectives is None else np.array(context.active_objectives),
             "active_constraints": None if context.active_constraints is None else np.array(context.active_constraints),
+            "active": None if context.active is None else np.array(context.active),
             "objectives": obj.copy(),
             "constraints": None if con is None else con.copy(),
             "config": context.config,
